@@ -1430,7 +1430,7 @@ def run_c11(report):
     primed = setup + [("scandir", "/"), ("scandir", "d"), ("getinfo", "d/g"), ("isdir", "d/e"), ("remove", "f"),
                       ("writebytes", "d/n", b"N"), ("makedir", "d/e/k", False), ("writebytes", "f2", b"F2")]
     sys_backs = [(bc, setup) for bc in (backs if thorough else [B.Mem, B.OS, B.SubMem, B.SubOS, B.Wrap, B.MountSub,
-                                                                  B.CachedDirMem, B.ReadOnlyMem])]
+                                                                  B.ReadOnlyMem])]
     sys_backs += [(bc, primed) for bc in ([B.CachedDirMem, B.CachedDirOS, B.SubCachedDir] if thorough
                                           else [B.CachedDirMem])]
     for bc, su in sys_backs:
@@ -1464,7 +1464,7 @@ def run_c11(report):
     ll_bad = []
     ll_per = collections.Counter()
     for bc in longlived_backends(thorough):
-        for _round in range(30 if thorough else 4):
+        for _round in range(20 if thorough else 4):
             c, g_, d = longlived_round(bc, rnd, thorough)
             ll_calls += c
             ll_groups += g_
